@@ -30,3 +30,21 @@ reg("C04",
     "tokenizer check; a lost/shortened/invented/shifted token is reported with its mechanism.",
     "Trusts: SEG as the reading of the statement (selftest pins it on hand-computed cases). init_min<=1 only, as the property states.",
     "runtime monitoring: executable reference model vs observed output", "DESIGN.md section 7 C04")
+reg("C05",
+    "End-to-end reference-model monitor on split()/AudioRegion.split(): synthesized and random PCM over all widths, channel "
+    "counts, selectors, modes, partial last windows and non-integral w*rate; every region's bytes, times, parameters and "
+    "order are checked against the input and the region list against ENERGY->SEG.",
+    "Trusts: ENERGY and SEG models; durations placed away from rounding boundaries (C06 covers those); 1e-6 dB guard band (C07 covers the boundary).",
+    "runtime monitoring: reference model + byte-exact oracle on regions yielded by split()", "DESIGN.md section 7 C05")
+reg("C06",
+    "Runtime oracle on split()'s ValueError/accept decision over an exhaustive literal grid of decimal durations x windows x "
+    "rates (incl. zero/negative/sub-sample), and on which isolated bursts are reported for accepted tuples (WIN exact-rational "
+    "counts -> SEG), with model-free crisp sub-checks at exactly ceil(min_dur/w) and floor(max_dur/w).",
+    "Trusts: WIN model (Fractions on the exact doubles, the statement's 1e-9 rule). The band between the code's 1e-10 epsilon and the statement's 1e-9 is never generated.",
+    "runtime monitoring: exact-rational reference model vs observed accept/reject and reported bursts", "DESIGN.md section 7 C06")
+reg("C07",
+    "Runtime oracle on AudioEnergyValidator.is_valid over generated windows x thresholds x selectors, exact Fraction energy "
+    "model; boundary decided against the implementation's own energy recorded at auditok.signal.calculate_energy and on exact "
+    "10^k / silence cases; monotonicity; selector errors; plus a passive monitor on every verdict taken inside split().",
+    "Trusts: math.log10 accuracy (<1e-12) for the model. If the energy hook is bypassed by a refactoring, exact cases still decide >= vs >.",
+    "runtime monitoring: reference model + hooked energy value + passive in-situ monitor", "DESIGN.md section 7 C07")
